@@ -1,6 +1,7 @@
 package table
 
 import (
+	"net/netip"
 	"regexp"
 	"strings"
 
@@ -409,5 +410,56 @@ func VH_c10_aspath() {
 	vObserve("nlist", uint64(len(set.list)))
 	vObserve("got", b2u(got))
 	vAssert(got == want, "as-path condition differs from its regular expressions under any/all/invert")
+	vReach("end")
+}
+
+// C10 (prefix sets): a prefix-set condition holds iff SOME entry of the set contains the route's
+// prefix and admits its mask length - also when the entries are nested and only the less specific
+// one admits it. Entries: 10.0.0.0/8, 10.1.0.0/16 (nested), 192.0.2.0/24, with symbolic mask-length
+// ranges; routes inside, beside and below them; any / invert.
+func VH_c10_prefix_set() {
+	entries := []struct {
+		pfx  string
+		bits int
+	}{{"10.0.0.0/8", 8}, {"10.1.0.0/16", 16}, {"192.0.2.0/24", 24}}
+	var list []oc.Prefix
+	for _, e := range entries {
+		list = append(list, oc.Prefix{IpPrefix: netip.MustParsePrefix(e.pfx)})
+	}
+	ps, err := NewPrefixSet(oc.PrefixSet{PrefixSetName: "ps", PrefixList: list})
+	vAssume(err == nil && ps != nil)
+	var lo, hi [3]uint8
+	for i, e := range entries {
+		got, ok := ps.tree.Get(netip.MustParsePrefix(e.pfx))
+		vAssume(ok && len(got) == 1)
+		lo[i], hi[i] = vU8("range_min"), vU8("range_max")
+		vAssume(int(lo[i]) >= e.bits && lo[i] <= hi[i] && hi[i] <= 32)
+		got[0].MasklengthRangeMin, got[0].MasklengthRangeMax = lo[i], hi[i]
+	}
+	routes := []struct {
+		pfx    string
+		bits   uint8
+		inside [3]bool
+	}{{"10.1.2.0/24", 24, [3]bool{true, true, false}}, {"10.1.0.0/16", 16, [3]bool{true, true, false}}, {"10.2.0.0/16", 16, [3]bool{true, false, false}},
+		{"10.1.2.128/25", 25, [3]bool{true, true, false}}, {"192.0.2.128/25", 25, [3]bool{false, false, true}}, {"172.16.0.0/12", 12, [3]bool{false, false, false}},
+		{"10.0.0.0/8", 8, [3]bool{true, false, false}}}
+	r := routes[vChoice("route", len(routes))]
+	nlri, _ := bgp.NewIPAddrPrefix(netip.MustParsePrefix(r.pfx))
+	p := &Path{info: &originInfo{nlri: nlri, nlriString: r.pfx, source: c02srcs[0]}, family: bgp.RF_IPv4_UC}
+	opt := MATCH_OPTION_ANY
+	if vBool("invert") {
+		opt = MATCH_OPTION_INVERT
+	}
+	c := &PrefixCondition{set: ps, option: opt}
+	want := false
+	for i := range entries {
+		if r.inside[i] && lo[i] <= r.bits && r.bits <= hi[i] {
+			want = true
+		}
+	}
+	if opt == MATCH_OPTION_INVERT {
+		want = !want
+	}
+	vAssert(c.Evaluate(p, nil) == want, "a prefix-set condition does not hold exactly when some entry contains the route and admits its mask length")
 	vReach("end")
 }
